@@ -241,7 +241,12 @@ func (o *cacheObj) exec(f []string, e *env) string {
 	case "sweep":
 		lg := e.curLog()
 		from := len(*lg)
-		c.CheckExpirations(time.Now())
+		// `sweep` passes the clock, `sweep:<t>` an explicit time (seconds after the base; it may be ahead of or behind the clock)
+		now := time.Now()
+		if len(f) > 1 {
+			now = e.base.Add(time.Duration(atoi(f[1])) * time.Second)
+		}
+		c.CheckExpirations(now)
 		got := append([]string(nil), (*lg)[from:]...)
 		return "x=[" + strings.Join(got, ",") + "]"
 	case "store":
